@@ -220,6 +220,15 @@ func (cv *ConfigValue) NamespacedName() (namespace, name string, err error) {
 	return "", "", fmt.Errorf("a globally configured resource name is missing the namespace: %s", cv.Value)
 }
 
+// sourceNamespace returns the namespace of the resource that declares the
+// config, or an empty string if the config comes from the global ConfigMap.
+func (cv *ConfigValue) sourceNamespace() string {
+	if cv.Source != nil {
+		return cv.Source.Namespace
+	}
+	return ""
+}
+
 // ToLower ...
 func (cv *ConfigValue) ToLower() string {
 	return strings.ToLower(cv.Value)
